@@ -599,7 +599,7 @@ func (e *connEnv) respond(k int, kind string) bool {
 func errText(k, n int) string {
 	s := make([]byte, 0, n+8)
 	s = append(s, fmt.Sprintf("E#%d|", k)...)
-	parts := []string{"é", "€", "x", "\"", "<", "&", "y"}
+	parts := []string{"é", "€", "x", "\"", "<", "&", "y", "%", "%s", "%d%%"}
 	for i := 0; len(s) < n; i++ {
 		p := parts[(i+k)%len(parts)]
 		if len(s)+len(p) > n {
